@@ -942,3 +942,143 @@ Proof.
   dtop H; [apply send_msgs_only in H; exact H|].
   dtop H; [apply send_msgs_only in H; exact H|]. okinv H. apply msgs_only_refl.
 Qed.
+
+(* ------------------------------------------------------------------ *)
+(* the role handlers *)
+
+Definition check_quorum_active (r : raft) : bool :=
+  snd (quorum_recently_active (r_prs r) (r_id r)).
+
+(* a leader's step: everything in [core] is kept, except that a failed
+   check-quorum round makes it a follower of the same term *)
+Lemma step_leader_cases r m r' c : step_leader r m = Ok (r', c) ->
+  keeps r r' \/
+  (m_type m = MsgCheckQuorum /\ check_quorum_active r = false /\
+   become_follower (r <| r_prs := fst (quorum_recently_active (r_prs r) (r_id r)) |>)
+                   (r_term r) INVALID_ID = Ok r').
+Proof.
+  unfold step_leader. intros H.
+  dtop H; [ib H y Hy; okinv H; left; apply bcast_heartbeat_keeps in Hy; exact Hy|].
+  dtop H.
+  { unfold check_quorum_active.
+    destruct (quorum_recently_active (r_prs r) (r_id r)) as [prs' active]. cbn [fst snd].
+    destruct active; cbn [negb] in H; [okinv H; left; reflexivity|].
+    ib H y Hy. okinv H. right. split; [apply N.eqb_eq; assumption|]. split; [reflexivity|exact Hy]. }
+  left.
+  dtop H.
+  { destruct (m_entries m); [discriminate|].
+    destruct (get_pr r (r_id r)); [|okinv H; apply keeps_refl].
+    destruct (r_lead_transferee r); [okinv H; apply keeps_refl|].
+    destruct (filter_conf_changes r _ _ 0) as [[r1 ents] ok] eqn:E.
+    apply filter_conf_changes_keeps in E.
+    destruct ok; cbn [negb] in H; [|okinv H; exact E].
+    ib H y Hy. destruct y as [r2 appended]. apply append_entry_keeps in Hy.
+    destruct appended; cbn [negb] in H; [|okinv H; eapply keeps_trans; eassumption].
+    ib H z Hz. okinv H. apply bcast_append_keeps in Hz.
+    eapply keeps_trans; [exact E|]. eapply keeps_trans; eassumption. }
+  dtop H.
+  { ib H y Hy. destruct y; cbn [negb] in H; [|okinv H; apply keeps_refl].
+    assert (Hnow : forall r' c,
+      (x <- handle_ready_read_index r m (committed (r_log r)) ;;
+       let '(r1, om) := x in
+       r2 <- match om with Some mm => send r1 mm | None => Ok r1 end ;; Ok (r2, E_OK)) = Ok (r', c) ->
+      keeps r r').
+    { intros ra ca Ha. ib Ha z Hz. destruct z as [r1 om].
+      apply handle_ready_read_index_keeps in Hz. ib Ha w Hw. okinv Ha.
+      destruct om; [apply send_keeps in Hw; eapply keeps_trans; eassumption|okinv Hw; exact Hz]. }
+    dtop H; [eapply Hnow; exact H|].
+    dtop H; [|eapply Hnow; exact H].
+    ib H ctx Hctx. ib H ro' Hro. ib H z Hz. okinv H.
+    apply bcast_heartbeat_with_ctx_keeps in Hz. eapply keeps_trans; [|exact Hz]. reflexivity. }
+  dtop H; [ib H y Hy; okinv H; eapply handle_append_response_keeps; eassumption|].
+  dtop H; [ib H y Hy; okinv H; eapply handle_heartbeat_response_keeps; eassumption|].
+  dtop H; [ib H y Hy; okinv H; eapply handle_snapshot_status_keeps; eassumption|].
+  dtop H; [ib H y Hy; okinv H; eapply handle_unreachable_keeps; eassumption|].
+  dtop H; [ib H y Hy; okinv H; eapply handle_transfer_leader_keeps; eassumption|].
+  okinv H. apply keeps_refl.
+Qed.
+
+(* a follower's step: term, vote, role and configuration are kept (the leader id may
+   be learned from the sender), except that MsgTimeoutNow runs [hup] for a transfer *)
+Lemma step_follower_cases r m r' c : r_state r = Follower -> step_follower r m = Ok (r', c) ->
+  (m_type m = MsgTimeoutNow /\ r_promotable r = true /\ hup r true = Ok r') \/
+  (r_term r' = r_term r /\ r_vote r' = r_vote r /\ r_state r' = Follower /\
+   cfg_of r' = cfg_of r /\
+   (r_leader_id r' = r_leader_id r \/ (from_leader m = true /\ r_leader_id r' = m_from m))).
+Proof.
+  intros Hf. unfold step_follower. intros H.
+  assert (Hk : forall ra, keeps r ra ->
+     r_term ra = r_term r /\ r_vote ra = r_vote r /\ r_state ra = Follower /\
+     cfg_of ra = cfg_of r /\
+     (r_leader_id ra = r_leader_id r \/ (from_leader m = true /\ r_leader_id ra = m_from m))).
+  { intros ra K. apply keeps_fields in K. destruct K as (A1 & A2 & A3 & A4 & A5).
+    rewrite A1, A2, A3, A4, A5. repeat split; auto. }
+  assert (Hk2 : forall ra, from_leader m = true ->
+     keeps (r <| r_election_elapsed := 0 |> <| r_leader_id := m_from m |>) ra ->
+     r_term ra = r_term r /\ r_vote ra = r_vote r /\ r_state ra = Follower /\
+     cfg_of ra = cfg_of r /\
+     (r_leader_id ra = r_leader_id r \/ (from_leader m = true /\ r_leader_id ra = m_from m))).
+  { intros ra Hfl K. apply keeps_fields in K. destruct K as (A1 & A2 & A3 & A4 & A5).
+    cbn in A1, A2, A3, A4, A5. rewrite A1, A2, A3, A4, A5. repeat split; auto. }
+  dtop H.
+  { right. apply Hk. dtop H; [okinv H; apply keeps_refl|]. dtop H; [okinv H; apply keeps_refl|].
+    ib H y Hy. okinv H. eapply send_keeps; eassumption. }
+  dtop H.
+  { right. ib H y Hy. okinv H. apply handle_append_entries_keeps in Hy.
+    apply Hk2; [unfold from_leader; rewrite Heqb0; reflexivity|exact Hy]. }
+  dtop H.
+  { right. ib H y Hy. okinv H. apply handle_heartbeat_keeps in Hy.
+    apply Hk2; [unfold from_leader; rewrite Heqb1, orb_true_r; reflexivity|exact Hy]. }
+  dtop H.
+  { right. ib H y Hy. okinv H. apply handle_snapshot_keeps in Hy; [|exact Hf].
+    apply Hk2; [unfold from_leader; rewrite Heqb2, orb_true_r; reflexivity|exact Hy]. }
+  dtop H.
+  { right. apply Hk. dtop H; [okinv H; apply keeps_refl|].
+    ib H y Hy. okinv H. eapply send_keeps; eassumption. }
+  dtop H.
+  { destruct (r_promotable r) eqn:P; [|okinv H; right; apply Hk; apply keeps_refl].
+    ib H y Hy. okinv H. left. split; [apply N.eqb_eq; assumption|]. split; [reflexivity|exact Hy]. }
+  dtop H.
+  { right. apply Hk. dtop H; [okinv H; apply keeps_refl|].
+    ib H y Hy. okinv H. eapply send_keeps; eassumption. }
+  dtop H.
+  { right. apply Hk. destruct (m_entries m) as [|e [|e2 rest]]; try (okinv H; apply keeps_refl).
+    ib H y Hy. okinv H. reflexivity. }
+  okinv H. right. apply Hk. apply keeps_refl.
+Qed.
+
+(* a (pre-)candidate's step *)
+Lemma step_candidate_cases r m r' c :
+  (r_state r = Candidate \/ r_state r = PreCandidate) ->
+  step_candidate r m = Ok (r', c) ->
+  (* nothing of the core changes *)
+  keeps r r' \/
+  (* a current leader shows up: follower of the same term *)
+  (from_leader m = true /\ r_term r = m_term m /\
+   exists r1, become_follower r (m_term m) (m_from m) = Ok r1 /\ keeps r1 r') \/
+  (* a response of the right kind is counted *)
+  (((r_state r = PreCandidate /\ m_type m = MsgRequestPreVoteResponse) \/
+    (r_state r <> PreCandidate /\ m_type m = MsgRequestVoteResponse)) /\
+   exists rp res, poll r (m_from m) (negb (m_reject m)) = Ok (rp, res) /\
+                  maybe_commit_by_vote rp m = Ok r').
+Proof.
+  intros Hrole. unfold step_candidate. intros H.
+  dtop H; [okinv H; left; apply keeps_refl|].
+  dtop H.
+  { right. left. split; [exact Heqb0|].
+    dtop H; [discriminate|]. apply negb_false_iff, N.eqb_eq in Heqb1.
+    split; [exact Heqb1|].
+    ib H r1 H1. ib H r2 H2. okinv H. exists r1. split; [exact H1|].
+    apply become_follower_facts in H1. destruct H1 as (_ & _ & Hf & _).
+    dtop H2; [eapply handle_append_entries_keeps; eassumption|].
+    dtop H2; [eapply handle_heartbeat_keeps; eassumption|].
+    eapply handle_snapshot_keeps; eassumption. }
+  dtop H; [|okinv H; left; apply keeps_refl].
+  dtop H; [okinv H; left; apply keeps_refl|].
+  right. right. ib H y Hy. destruct y as [rp res]. cbn [fst] in H. ib H z Hz. okinv H.
+  split; [|exists rp, res; split; assumption].
+  apply orb_false_iff in Heqb2. destruct Heqb2 as [B1 B2].
+  destruct Hrole as [Hr|Hr]; rewrite Hr in B1, B2; cbn [role_eqb andb] in B1, B2.
+  - apply negb_false_iff, N.eqb_eq in B2. right. split; [congruence|exact B2].
+  - apply negb_false_iff, N.eqb_eq in B1. left. split; [exact Hr|exact B1].
+Qed.
